@@ -3,6 +3,7 @@ package sqlparse
 //verif:dir internal/sqlparse
 //verif:bound one statement SELECT <leaf> FROM t (or SELECT a FROM <leaf>, SELECT a AS <leaf> FROM t) in the SQLite dialect, where the leaf is a quoted identifier in one of the three quoting styles ("..", `..`, [..]) whose content is any string of 1..4 (quick) / 1..5 (thorough) bytes over letters, digits and _ $ space . ' " ` [ ], or a string literal whose content is any string of 0..4 bytes over the same alphabet plus backslash
 //verif:bound SELECT a FROM t with a row window in each of its three spellings (LIMIT n / LIMIT n OFFSET m / LIMIT m, n) where n and m are arbitrary 1..2-digit numbers
+//verif:bound SELECT <op><sep><op>1 FROM t for prefix operators - + ~ written with a blank, nothing or parentheses between them
 //verif:assume ASCII content only (the lexer works on runes; non-ASCII letters are never keywords)
 //verif:outside every other syntactic form (expression operators, clauses, DDL): formatting of whole statements is outside this claim; executing the reformatted text against SQLite; the PostgreSQL dialect (always quotes)
 
@@ -203,5 +204,64 @@ func VerifC16_limitClauseKeepsCountAndOffset() {
 	}
 	c2, o2, ok2 := c16Limit(p2)
 	sym.Assert(ok2 && c2 == wantCount && o2 == wantOffset, "reformatting changed the row count or the offset of a LIMIT clause")
+	sym.Assert(p2.Format() == f, "reformatting the reformatted text changed it again")
+}
+
+// c16Unary describes the chain of prefix operators in front of the literal 1 in
+// SELECT <ops> 1 FROM t, innermost last, or ok=false for any other tree.
+func c16Unary(p *Sqlparse) (ops string, ok bool) {
+	sel, isSel := p.stmt.(*ast.SelectStmt)
+	if !isSel {
+		return "", false
+	}
+	core, isCore := sel.Select.(*ast.SelectCore)
+	if !isCore || len(core.Columns) != 1 {
+		return "", false
+	}
+	n := core.Columns[0].Expr
+	for {
+		switch e := n.(type) {
+		case *ast.UnaryExpr:
+			ops += e.Op
+			n = e.X
+			continue
+		case *ast.Literal:
+			// a sign may have been folded into the literal
+			return ops + "|" + e.Value, true
+		}
+		return "", false
+	}
+}
+
+// VerifC16_prefixOperatorsStayApart: two prefix operators in a row keep their
+// meaning when reformatted (- -1 must not become --1, which starts a comment).
+func VerifC16_prefixOperatorsStayApart() {
+	ops := []string{"-", "+", "~"}
+	o1, o2 := ops[sym.Choice("outer", 3)], ops[sym.Choice("inner", 3)]
+	sep := []string{" ", "", "("}[sym.Choice("separator", 3)]
+	src := "SELECT " + o1 + sep + o2 + "1"
+	if sep == "(" {
+		src += ")"
+	}
+	src += " FROM t"
+	p1, err := New(src, SQLite)
+	if err != nil {
+		sym.Reach("rejected")
+		return
+	}
+	u1, ok := c16Unary(p1)
+	if !ok {
+		return
+	}
+	f := p1.Format()
+	sym.Observe("formatted", f)
+	sym.Reach("reformatted")
+	p2, err := New(f, SQLite)
+	if err != nil {
+		sym.Assert(false, "the reformatted text of an accepted statement no longer parses")
+		return
+	}
+	u2, ok2 := c16Unary(p2)
+	sym.Assert(ok2 && u2 == u1, "the reformatted text parses to a different syntax tree")
 	sym.Assert(p2.Format() == f, "reformatting the reformatted text changed it again")
 }
